@@ -173,6 +173,7 @@ CHECKS["C19"] = dict(parts=[part("budgets-exact", "pure", "TestC19", 5000, 500_0
 CHECKS["C29"] = dict(parts=[part("id-sequence", "pure", "TestC29Seq", 2000, 100_000, race=True, death_is_violation=True, death_kind="data-race-or-crash/id-sequence", env={"GORACE": "halt_on_error=1"}),
                             part("store-linearizable", "pure", "TestC29Store", 2000, 200_000, race=True, death_is_violation=True, death_kind="data-race-or-crash/store", env={"GORACE": "halt_on_error=1"})])
 CHECKS["C18"] = dict(parts=[part("finished-stays-finished", "pure", "TestC18", 5000, 300_000, race=True, death_is_violation=True, death_kind="panic-or-data-race/transaction", env={"GORACE": "halt_on_error=1"}),
+                            part("timer-fired-then-finished", "pure", "TestC18Parked", 3000, 200_000, race=True, death_is_violation=True, death_kind="panic-or-data-race/transaction", env={"GORACE": "halt_on_error=1"}),
                             part("sleep-transaction", "cl", "TestC18Sleep", 1500, 100_000, race=True, death_is_violation=True, death_kind="panic-or-data-race/sleep-transaction", env={"GORACE": "halt_on_error=1"})])
 _PURE_NOTE = "Pure library code called in-process; no hooks needed. Built with go1.26.8."
 META.update({
@@ -180,8 +181,8 @@ META.update({
         text="Exploration: all 256 predefined maps over clients {'*',a} x IDs {1,2} x names {x,y,the empty name,absent} (exhaustive) plus the repository's own topics.yaml, then random maps over 4 clients, 8 IDs, 5 names and the empty name, each queried for every client, ID and name; oracle: GetTopicName equals a reference lookup (client entry, else '*' entry) and every ID GetTopicID returns maps back to the queried name for that client (queries repeated, the implementation iterates Go maps).",
         note=_PURE_NOTE, technique="exhaustive enumeration of the small sub-space + PBT; oracle = reference lookup and a round-trip relation"),
     "C18": dict(
-        text="Exploration (race-detector build, virtual clock): generated schedules in which Success/Fail/Proceed/context-cancel are released together on separate goroutines at instants that coincide with timer expiries, with zero and minimal delays and failing retry callbacks; oracle: completion callback exactly once, Err() stable after Done, no retry after a quiescent point with Done closed, no panic, no race report (process death is attributed to the case written to disk beforehand).",
-        note=_PURE_NOTE + " A bubble fixes time but not the order of goroutines runnable at the same instant: the race detector reports unordered conflicting accesses whether or not the bad overlap happened in that run; interleavings that need several specific context switches may be missed.",
+        text="Exploration (race-detector build, virtual clock): generated schedules in which Success/Fail/Proceed/context-cancel are released together on separate goroutines at instants that coincide with timer expiries, with zero and minimal delays and failing retry callbacks; oracle: completion callback exactly once, Err() stable after Done, no retry after a quiescent point with Done closed, no panic, no race report (process death is attributed to the case written to disk beforehand). Second part, schedule owned by the harness: the k-th retry timer has fired but its function is parked at its entry (verif-tagged hook holding the lock it takes first) while Success/Fail finishes the transaction at that very instant; after the release no retry callback may run, Err() stays, the completion callback ran once.",
+        note=_PURE_NOTE.replace("no hooks needed", "one hook (transactions.VerifHoldTimer, second part only)") + " A bubble fixes time but not the order of goroutines runnable at the same instant: the race detector reports unordered conflicting accesses whether or not the bad overlap happened in that run; interleavings that need several specific context switches may be missed.",
         technique="PBT over racing operation schedules under the race detector and synctest; history invariants as oracle"),
     "C19": dict(
         text="Exploration: retry and timed transactions on the virtual clock with one driver goroutine; RetryCount 0-6, delays 1 ms..60 s, progress events and the final completion at offsets that never coincide with a timer instant (small space enumerated); the oracle is exact on virtual timestamps: callbacks at T+d..T+c*d after the last progress, 'no more retries' at T+(c+1)*d, 'timeout' exactly at the timeout, nothing after completion.",
